@@ -313,3 +313,9 @@ extend("C03", "", "maps whose value schema is an untyped enum or a composition o
 extend("C09", "", "map-typed object defaults keep their entries (known finding: typed additionalProperties).")
 extend("C17", "A-MAP (decoder parity of field types)", "a property that may be null is a pointer when its type has unmarshalers; a JSON number is a float64.")
 extend("C18", "", "B-EOF demands the io.EOF side of a further read (Decoder.More is no end-of-input test).")
+extend("C02", "A-IDENT", "a value lands in its field only if the field is exported, for every name and capitalization.")
+extend("C04", "A-DEDUP", "a same-named schema is bound to the declaration of the equal one (its presence checks are its own).")
+extend("C08", "A-IDENT", "an enum field is exported for every name and capitalization.")
+extend("C09", "A-DEDUP, A-IDENT", "defaults belong to the declaration a schema is bound to; a defaulted field is exported.")
+extend("C11", "A-DECLSET", "the alias of a referenced anyOf branch is declared once; two inline anyOf branches declaring one property enforce their own keywords only; # inside a composition.")
+extend("C20", "A-DECLSET", "a declaration reached twice in one run is emitted once.")
